@@ -98,22 +98,35 @@ func (pkh *eonPubKeyHandler) queryAndHandleNewEonPubKeys(ctx context.Context) er
 	if err != nil {
 		return err
 	}
+	// The keys have already been deleted from the database by the query above, so every one of
+	// them has to be handed over now: an error for one key must not drop the remaining ones.
+	var firstErr error
+	recordErr := func(err error) {
+		log.Error().Err(err).Msg("error during handling of new eon public key")
+		if firstErr == nil {
+			firstErr = err
+		}
+	}
 	for _, eonPublicKey := range eonPublicKeys {
 		_, exists := database.GetKeyperIndex(pkh.config.GetAddress(), eonPublicKey.Keypers)
 		if !exists {
-			return errors.Errorf("own keyper index not found for Eon=%d", eonPublicKey.Eon)
+			recordErr(errors.Errorf("own keyper index not found for Eon=%d", eonPublicKey.Eon))
+			continue
 		}
 		activationBlock, err := medley.Int64ToUint64Safe(eonPublicKey.ActivationBlockNumber)
 		if err != nil {
-			return errors.Wrap(err, "failed safe int cast")
+			recordErr(errors.Wrap(err, "failed safe int cast"))
+			continue
 		}
 		keyperIndex, err := medley.Int32ToUint64Safe(eonPublicKey.KeyperConfigIndex)
 		if err != nil {
-			return errors.Wrap(err, "failed safe int cast")
+			recordErr(errors.Wrap(err, "failed safe int cast"))
+			continue
 		}
 		eon, err := medley.Int64ToUint64Safe(eonPublicKey.Eon)
 		if err != nil {
-			return errors.Wrap(err, "failed safe int cast")
+			recordErr(errors.Wrap(err, "failed safe int cast"))
+			continue
 		}
 		eonPubKey := EonPublicKey{
 			PublicKey:         eonPublicKey.EonPublicKey,
@@ -123,12 +136,17 @@ func (pkh *eonPubKeyHandler) queryAndHandleNewEonPubKeys(ctx context.Context) er
 		}
 		if pkh.broadcastEonPubKey {
 			err := pkh.broadcastEonPublicKey(ctx, eonPubKey)
-			return errors.Wrap(err, "failed to broadcast eon public key")
+			if err != nil {
+				recordErr(errors.Wrap(err, "failed to broadcast eon public key"))
+			}
+			continue
 		}
 		if pkh.eonPubkeyHandler != nil {
 			err := pkh.eonPubkeyHandler(ctx, eonPubKey)
-			return errors.Wrap(err, "failed to handle eon public key")
+			if err != nil {
+				recordErr(errors.Wrap(err, "failed to handle eon public key"))
+			}
 		}
 	}
-	return nil
+	return firstErr
 }
